@@ -100,6 +100,25 @@ def run(prop, tier, seed, replay=None):
         case = run_list[idx] if idx is not None and idx < len(run_list) else {}
         path = save_replay(prop, seed, len(viols), case, v["why"], tpath, v["line"])
         viols.append({"why": v["why"], "replay": path, "sig": case_sig(case), "case": name})
+    second = None
+    if prop == "C20" and not replay:
+        # the logger also has to behave on the safe variants (std rc, safe cells / deferrer): the random
+        # programs and a sample of the exported ones are run again on that build
+        feats2 = ["multi-stakker", "logger", "no-unsafe", "inter-thread"]
+        binary2 = common.build_harness(features=feats2, tag="seqdrv-c20-safe")
+        nrand = len(cases) - len(mc["cases"])
+        sub = run_list[len(mc["cases"]):] + run_list[:(600 if tier == "quick" else len(mc["cases"]))]
+        cpath2, tpath2, verdict2 = run_cases(binary2, sub, "%s-%s-%d-safe" % (prop, tier, seed))
+        for v in verdict2["violations"]:
+            if v["prop"] == "HARNESS":
+                raise common.ToolError("harness-level failure on the safe logger build: %s" % v["why"])
+            if v["prop"] != prop:
+                continue
+            idx, name = common.case_of_line(tpath2, v["line"])
+            case = sub[idx] if idx is not None and idx < len(sub) else {}
+            path = save_replay(prop, seed, len(viols), case, v["why"], tpath2, v["line"])
+            viols.append({"why": "[%s] %s" % (",".join(feats2), v["why"]), "replay": path, "sig": case_sig(case), "case": name})
+        second = {"features": feats2, "cases": len(sub), "trace_events_validated": verdict2["lines"], "random_cases": nrand}
     # drift: D's predictions vs. the code (informational)
     drift = []
     if mc["cases"]:
@@ -147,6 +166,7 @@ def run(prop, tier, seed, replay=None):
         "drift_events": drift[:20],
         "drift_count": len(drift) + (dtv["ndrift"] if dtv else 0),
         "design_trace_validation": dtv,
+        "second_build": second,
         "tlc_specs": mc["specs"],
         "exhaustive": False,
         "explanation": "TLC explored the design spec(s) exhaustively within the config bounds checking the abstract monitor's verdict as an invariant; every exported behaviour and every random program was executed on the real code and the recorded trace validated line by line against SeqAbs by TLC (SeqTrace)",
